@@ -424,7 +424,7 @@ def run(rep, tier):
         checker_cmd="make -C coq Props/C19.vo (coq_makefile, coqc 8.16.1) after regenerating coq/Gen/GenOpcodes.v from /repo/src/halmos/contract.py",
         trusted_base=common.TRUSTED_BASE_COMMON,
         assumptions=ASSUMPTIONS,
-        rule="cases = code layouts (list of concrete / symbolic chunks); exhaustive short strings over a reduced alphabet + random strings up to 4 KiB + every concrete/symbolic split offset; a case is non-trivial when it has a JUMPDEST, a JUMPDEST byte that is not a valid destination, a truncated PUSH, symbolic bytes or several chunks; distinct by hash of the layout. Observables compared per case: valid_jumpdests(), decode_instruction(pc) for every pc <= len+2, __getitem__ for every index <= len+1, slice() on a grid of (start,size) around both ends",
+        rule="cases = code layouts (list of concrete / symbolic chunks); exhaustive short strings over a reduced alphabet + random strings up to 4 KiB + every concrete/symbolic split offset; a case is non-trivial when it has a JUMPDEST, a JUMPDEST byte that is not a valid destination, a truncated PUSH, symbolic bytes or several chunks; distinct by hash of the layout. Observables compared per case: valid_jumpdests(), decode_instruction(pc) for every pc <= len+2, __getitem__ for every index <= len+1, slice() on a grid of (start,size) around both ends (and far past the end); execution leg: programs that JUMP / JUMPI (literal and symbolic condition) to every offset of bodies with JUMPDEST bytes at boundaries and inside PUSH data, loops whose head is a JUMPDEST at offset 0, and CODECOPY at / across / far past the end of the code over dirty memory, run by the real SEVM and by the reference interpreter input by input",
     )
 
 
